@@ -1,154 +1,202 @@
-(* C04 — call_once: the function body runs at most once, and nobody returns before the run
-   has completed and its effects are visible. *)
+(* C04 — call_once, any number of once-flags in flight: for every flag, the function body runs at most once,
+   and nobody returns from a call on that flag before the run has completed and its effects are visible. *)
 From MV Require Import C04.Model.
 Local Open Scope Z_scope.
 
 Definition runner (p : opc) : bool :=
   match p with CFunc1 | CBody | CFunc2 | CStore => true | _ => false end.
 Definition returned (p : opc) : bool := match p with CRetSeg | CFin | CDone => true | _ => false end.
+(* the thread is running the body of flag f *)
+Definition runs_on (f : nat) (x : othread) : bool := Nat.eqb (o_cur x) f && runner (o_pc x).
 
 Definition once_mo_ok (P : params) : bool := is_rel (mo_once_store P) && is_acq (mo_once_load P).
 
-(* what each thread knows at each program point *)
-Definition thr_ok (s : osys) (x : othread) : Prop :=
-  (o_seen x <= o_dver s)%nat /\
-  (* a thread that has completed a call keeps what it learnt, also while it calls again *)
-  ((0 < o_rets x)%nat -> o_flag s = 2 /\ o_seen x = 1%nat) /\
-  match o_pc x with
-  | CStart | CCas => True
-  | CFunc1 => o_flag s = 1 /\ o_runs s = 0%nat /\ o_done s = 0 /\ o_dver s = 0%nat
-  | CBody | CFunc2 => o_flag s = 1 /\ o_runs s = 1%nat /\ o_done s = 0 /\ o_dver s = 0%nat
-  | CStore => o_flag s = 1 /\ o_runs s = 1%nat /\ o_done s = 1 /\ o_dver s = 1%nat /\ o_seen x = 1%nat
-  | CLoadSeg | CLoad => o_flag s <> 0
-  | CRetSeg | CFin | CDone => o_flag s = 2 /\ o_seen x = 1%nat
-  end.
+(* what each thread knows about flag f at each program point *)
+Definition thr_ok (f : nat) (s : osys) (x : othread) : Prop :=
+  (o_seen x f <= o_dver s f)%nat /\
+  (* a thread that has completed a call on f keeps what it learnt, whatever it calls afterwards *)
+  ((0 < o_rets x f)%nat -> o_flag s f = 2 /\ o_seen x f = 1%nat) /\
+  (o_cur x = f ->
+   match o_pc x with
+   | CStart | CCas => True
+   | CFunc1 => o_flag s f = 1 /\ o_runs s f = 0%nat /\ o_done s f = 0 /\ o_dver s f = 0%nat
+   | CBody | CFunc2 => o_flag s f = 1 /\ o_runs s f = 1%nat /\ o_done s f = 0 /\ o_dver s f = 0%nat
+   | CStore => o_flag s f = 1 /\ o_runs s f = 1%nat /\ o_done s f = 1 /\ o_dver s f = 1%nat /\ o_seen x f = 1%nat
+   | CLoadSeg | CLoad => o_flag s f <> 0
+   | CRetSeg | CFin | CDone => o_flag s f = 2 /\ o_seen x f = 1%nat
+   end).
 
-Record OInv (s : osys) : Prop := {
-  oi_flag : o_flag s = 0 \/ o_flag s = 1 \/ o_flag s = 2;
-  oi_g0 : o_flag s = 0 -> o_runs s = 0%nat /\ o_done s = 0 /\ o_dver s = 0%nat;
-  oi_g2 : o_flag s = 2 -> o_runs s = 1%nat /\ o_done s = 1 /\ o_dver s = 1%nat /\ o_stamp s = 1%nat;
-  oi_stamp : (o_stamp s <= o_dver s)%nat;
-  oi_early : o_early s = 0%nat;
-  oi_runs : (o_runs s <= 1)%nat;
-  oi_one : forall t u, runner (o_pc (o_thr s t)) = true -> runner (o_pc (o_thr s u)) = true -> t = u;
-  oi_thr : forall t, thr_ok s (o_thr s t);
+Record OInv (f : nat) (s : osys) : Prop := {
+  oi_flag : o_flag s f = 0 \/ o_flag s f = 1 \/ o_flag s f = 2;
+  oi_g0 : o_flag s f = 0 -> o_runs s f = 0%nat /\ o_done s f = 0 /\ o_dver s f = 0%nat;
+  oi_g2 : o_flag s f = 2 -> o_runs s f = 1%nat /\ o_done s f = 1 /\ o_dver s f = 1%nat /\ o_stamp s f = 1%nat;
+  oi_stamp : (o_stamp s f <= o_dver s f)%nat;
+  oi_early : o_early s f = 0%nat;
+  oi_runs : (o_runs s f <= 1)%nat;
+  oi_one : forall t u, runs_on f (o_thr s t) = true -> runs_on f (o_thr s u) = true -> t = u;
+  oi_thr : forall t, thr_ok f s (o_thr s t);
 }.
 
-Ltac o_upd := simpl in *; repeat (match goal with
-  | H : context [upd _ ?t _ ?a] |- _ => unfold upd in H; destruct (Nat.eqb_spec a t); subst
-  | |- context [upd _ ?t _ ?a] => unfold upd; destruct (Nat.eqb_spec a t); subst
-  end; simpl in * ).
+Ltac ocbn := cbn [o_pc o_cur o_todo o_seen o_rets o_n o_flag o_stamp o_runs o_done o_dver o_early o_thr oset
+                  runner returned andb] in *.
+(* every finite map update (threads, flags) is split on its key *)
+Ltac spl := unfold upd in *; ocbn;
+  repeat (match goal with
+  | H : context [Nat.eqb ?a ?b] |- _ => destruct (Nat.eqb_spec a b)
+  | |- context [Nat.eqb ?a ?b] => destruct (Nat.eqb_spec a b)
+  end; ocbn).
+Ltac fin := try subst; ocbn; try discriminate; try reflexivity;
+  first [ lia | congruence | solve [intuition (try lia; try congruence)] ].
 
-Lemma oinit_inv n calls : OInv (oinit n calls).
+Lemma oinit_inv f n scripts : OInv f (oinit n scripts).
 Proof.
-  constructor; simpl; [auto | auto | discriminate | lia | auto | lia | discriminate | ].
-  intros t. unfold thr_ok; simpl. split; [lia|split; [lia|exact I]].
+  constructor; simpl; [auto | auto | discriminate | lia | auto | lia | | ].
+  - intros t u H. unfold runs_on in H. simpl in H. rewrite andb_false_r in H. discriminate.
+  - intros t. unfold thr_ok; simpl. split; [lia|split; [lia|intros _; exact I]].
 Qed.
 
-Ltac o_arith := simpl in *; intros; try discriminate; first [ lia | intuition lia ].
-Ltac o_one Hone :=
+(* the two goals that speak about all threads *)
+Ltac prove_runs :=
+  unfold runs_on; apply andb_true_intro; split;
+  [ apply Nat.eqb_eq; first [assumption | congruence]
+  | first [ assumption | congruence
+          | match goal with E : o_pc (o_thr _ _) = _ |- _ => rewrite E; reflexivity end ] ].
+Ltac g_one Hone :=
   let a := fresh "a" in let b := fresh "b" in let Ha := fresh "Ha" in let Hb := fresh "Hb" in
-  intros a b Ha Hb; o_upd; try discriminate; try reflexivity;
-  first [ apply Hone; assumption | symmetry; apply Hone; assumption
-        | (* a runner exists already, so the flag is 1: impossible here *) exfalso; o_arith ].
-(* the stepping thread's own entry is solved by arithmetic; another thread [a] keeps its
-   knowledge because only a runner changes the shared facts and there is one runner *)
-Ltac o_thr Hone Hthr t :=
-  let a := fresh "a" in let Ka := fresh "Ka" in let Ea := fresh "Ea" in
-  intros a; pose proof (Hthr a) as Ka; o_upd;
-  [ unfold thr_ok in *; simpl in *; o_arith
-  | unfold thr_ok in *; simpl in *;
-    destruct (o_pc (o_thr _ a)) eqn:Ea; simpl in *;
-    first [ o_arith
-          | exfalso; match goal with n : a <> t |- _ => apply n; apply Hone; [rewrite Ea; reflexivity | assumption] end ] ].
+  intros a b Ha Hb; unfold runs_on in Ha, Hb; spl; try discriminate; try reflexivity; try subst a; try subst b;
+  first [ congruence
+        | apply Hone; prove_runs
+        | symmetry; apply Hone; prove_runs
+        | exfalso; fin ].
+Ltac g_thr Hone Hthr t :=
+  let a := fresh "a" in let Ka := fresh "Ka" in let Ea := fresh "Ea" in let Ca := fresh "Ca" in
+  intros a; pose proof (Hthr a) as Ka; unfold thr_ok in *; spl;
+  try solve [fin];
+  (* another thread a: its knowledge stays valid because only the runner of f changes the facts about f *)
+  destruct Ka as (? & ? & Ka);
+  (split; [fin | split; [fin |]]);
+  intros Ca; specialize (Ka Ca);
+  destruct (o_pc (o_thr _ a)) eqn:Ea; ocbn;
+  first [ fin
+        | exfalso; match goal with n : a <> t |- _ => apply n; apply Hone; prove_runs end
+        | exfalso; match goal with n : a <> t |- _ => apply n; apply Hone;
+                     [ prove_runs | unfold runs_on; apply andb_true_intro; split;
+                                    [apply Nat.eqb_eq; first [assumption|congruence]
+                                    | match goal with E : o_pc (o_thr _ t) = _ |- _ => rewrite E; reflexivity end] ] end ].
 
-Lemma ostep_inv P s t ch s' l : once_mo_ok P = true -> OInv s -> ostep P s t ch = Some (s', l) -> OInv s'.
+Lemma ostep_inv P f s t ch s' l : once_mo_ok P = true -> OInv f s -> ostep P s t ch = Some (s', l) -> OInv f s'.
 Proof.
   intros Hmo I Hs. apply andb_prop in Hmo as [Mr Ma].
   destruct I as [Hfl Hg0 Hg2 Hst Hear Hruns Hone Hthr].
   unfold ostep in Hs. destruct (Nat.leb (o_n s) t); [discriminate|].
-  pose proof (Hthr t) as Kt. unfold thr_ok in Kt.
-  destruct (o_pc (o_thr s t)) eqn:Epc; pose proof (f_equal runner Epc) as Rt; simpl in Rt, Kt;
-    destruct Kt as [St [Rk Kt]].
-  - (* CStart *)
-    inversion Hs; subst; clear Hs.
-    constructor; simpl; [o_arith|o_arith|o_arith|o_arith|o_arith|o_arith|o_one Hone|o_thr Hone Hthr t].
-  - (* CCas *)
-    destruct (Z.eqb_spec (o_flag s) 0) as [F0|F0]; inversion Hs; subst; clear Hs.
-    + destruct (Hg0 F0) as (Ar & Ad & Av).
-      assert (Hnor : forall a, runner (o_pc (o_thr s a)) = false).
-      { intros a. pose proof (Hthr a) as Ka. unfold thr_ok in Ka.
-        destruct (o_pc (o_thr s a)); simpl in *; try reflexivity; exfalso; intuition lia. }
-      unfold acq_join, rmw_stamp.
-      constructor; simpl; [o_arith|o_arith|o_arith| |o_arith|o_arith| | ].
-      * destruct (is_rel (mo_once_cas P)); lia.
-      * intros a b Ha Hb. o_upd; try reflexivity; rewrite Hnor in *; discriminate.
-      * intros a. pose proof (Hthr a) as Ka. o_upd.
-        -- unfold thr_ok; simpl. destruct (is_acq (mo_once_cas P)); intuition lia.
-        -- unfold thr_ok in *; simpl in *. destruct (o_pc (o_thr s a)) eqn:Ea; simpl in *; intuition lia.
-    + constructor; simpl; [o_arith|o_arith|o_arith|o_arith|o_arith|o_arith|o_one Hone|o_thr Hone Hthr t].
-  - (* CFunc1: the body starts *)
-    inversion Hs; subst; clear Hs.
-    constructor; simpl; [o_arith|o_arith|o_arith|o_arith|o_arith|o_arith|o_one Hone|o_thr Hone Hthr t].
-  - (* CBody *)
-    inversion Hs; subst; clear Hs.
-    constructor; simpl; [o_arith|o_arith|o_arith|o_arith|o_arith|o_arith|o_one Hone|o_thr Hone Hthr t].
-  - (* CFunc2: the body's write *)
-    inversion Hs; subst; clear Hs.
-    constructor; simpl; [o_arith|o_arith|o_arith|o_arith|o_arith|o_arith|o_one Hone|o_thr Hone Hthr t].
-  - (* CStore: READY is published with the runner's view *)
-    inversion Hs; subst; clear Hs. unfold rel_stamp. rewrite Mr.
-    constructor; simpl; [o_arith|o_arith|o_arith|o_arith|o_arith|o_arith|o_one Hone|o_thr Hone Hthr t].
-  - (* CLoadSeg *)
-    inversion Hs; subst; clear Hs.
-    constructor; simpl; [o_arith|o_arith|o_arith|o_arith|o_arith|o_arith|o_one Hone|o_thr Hone Hthr t].
-  - (* CLoad: an acquire load of READY brings the runner's view *)
-    inversion Hs; subst; clear Hs. unfold acq_join. rewrite Ma.
-    destruct (Z.eqb_spec (o_flag s) 2) as [F2|F2].
-    + destruct (Hg2 F2) as (Ar & Ad & Av & As).
-      constructor; simpl; [o_arith|o_arith|o_arith|o_arith|o_arith|o_arith|o_one Hone|o_thr Hone Hthr t].
-    + constructor; simpl; [o_arith|o_arith|o_arith|o_arith|o_arith|o_arith|o_one Hone|o_thr Hone Hthr t].
-  - (* CRetSeg: the caller returns having seen the body's effect *)
-    destruct Kt as [F2 S1]. destruct (Hg2 F2) as (Ar & Ad & Av & As).
-    rewrite Ad, S1, Av in Hs. simpl in Hs.
-    destruct (o_calls (o_thr s t)) eqn:Ecalls; inversion Hs; subst; clear Hs;
-    (constructor; simpl; [o_arith|o_arith|o_arith|o_arith|o_arith|o_arith|o_one Hone|o_thr Hone Hthr t]).
-  - (* CFin *)
-    inversion Hs; subst; clear Hs.
-    constructor; simpl; [o_arith|o_arith|o_arith|o_arith|o_arith|o_arith|o_one Hone|o_thr Hone Hthr t].
-  - discriminate.
+  pose proof (Hthr t) as Kt. unfold thr_ok in Kt. destruct Kt as (St & Rk & Kt).
+  destruct (Nat.eq_dec (o_cur (o_thr s t)) f) as [Ec|Nc].
+  - (* the step is about flag f *)
+    specialize (Kt Ec).
+    destruct (o_pc (o_thr s t)) eqn:Epc; simpl in Kt.
+    + (* CStart *)
+      inversion Hs; subst; clear Hs.
+      constructor; ocbn; [fin|fin|fin|fin|fin|fin|g_one Hone|g_thr Hone Hthr t].
+    + (* CCas *)
+      rewrite Ec in Hs.
+      destruct (Z.eqb_spec (o_flag s f) 0) as [F0|F0]; inversion Hs; subst; clear Hs.
+      * destruct (Hg0 F0) as (Ar & Ad & Av).
+        assert (Hnor : forall a, runs_on (o_cur (o_thr s t)) (o_thr s a) = false).
+        { intros a. pose proof (Hthr a) as Ka. unfold thr_ok in Ka. destruct Ka as (_ & _ & Ka).
+          unfold runs_on. destruct (Nat.eqb_spec (o_cur (o_thr s a)) (o_cur (o_thr s t))) as [E|]; [|reflexivity].
+          specialize (Ka E). destruct (o_pc (o_thr s a)); simpl in *; try reflexivity; exfalso; intuition lia. }
+        unfold acq_join, rmw_stamp.
+        constructor; ocbn.
+        -- spl; fin.
+        -- spl; fin.
+        -- spl; fin.
+        -- spl; [destruct (is_rel (mo_once_cas P)); lia|fin].
+        -- fin.
+        -- fin.
+        -- intros a b Ha Hb. ocbn.
+           destruct (Nat.eq_dec a t) as [|Na], (Nat.eq_dec b t) as [|Nb]; subst; try reflexivity; exfalso.
+           ++ rewrite upd_other in Hb by assumption. rewrite Hnor in Hb. discriminate.
+           ++ rewrite upd_other in Ha by assumption. rewrite Hnor in Ha. discriminate.
+           ++ rewrite upd_other in Ha by assumption. rewrite Hnor in Ha. discriminate.
+        -- intros a. pose proof (Hthr a) as Ka. unfold thr_ok in *. spl; try (exfalso; congruence);
+           first [ solve [destruct (is_acq (mo_once_cas P)); intuition lia]
+                 | destruct Ka as (K1 & K2 & K3); (split; [lia|split; [intuition lia|]]);
+                   intros Ca; specialize (K3 Ca); destruct (o_pc (o_thr s a)) eqn:Ea; simpl in *; intuition lia ].
+      * constructor; ocbn; [fin|fin|fin|fin|fin|fin|g_one Hone|g_thr Hone Hthr t].
+    + (* CFunc1: the body starts *)
+      inversion Hs; subst; clear Hs.
+      constructor; ocbn; [spl; fin|spl; fin|spl; fin|fin|fin|spl; fin|g_one Hone|g_thr Hone Hthr t].
+    + (* CBody *)
+      inversion Hs; subst; clear Hs.
+      constructor; ocbn; [fin|fin|fin|fin|fin|fin|g_one Hone|g_thr Hone Hthr t].
+    + (* CFunc2: the body's write *)
+      inversion Hs; subst; clear Hs.
+      constructor; ocbn; [fin|spl; fin|spl; fin|spl; fin|fin|fin|g_one Hone|g_thr Hone Hthr t].
+    + (* CStore: READY is published with the runner's view *)
+      inversion Hs; subst; clear Hs. unfold rel_stamp. rewrite Mr.
+      constructor; ocbn; [spl; fin|spl; fin|spl; fin|spl; fin|fin|fin|g_one Hone|g_thr Hone Hthr t].
+    + (* CLoadSeg *)
+      inversion Hs; subst; clear Hs.
+      constructor; ocbn; [fin|fin|fin|fin|fin|fin|g_one Hone|g_thr Hone Hthr t].
+    + (* CLoad: an acquire load of READY brings the runner's view *)
+      rewrite Ec in Hs. inversion Hs; subst; clear Hs. unfold acq_join. rewrite Ma.
+      destruct (Z.eqb_spec (o_flag s (o_cur (o_thr s t))) 2) as [F2|F2].
+      * destruct (Hg2 F2) as (Ar & Ad & Av & As).
+        constructor; ocbn; [fin|fin|fin|fin|fin|fin|g_one Hone|g_thr Hone Hthr t].
+      * constructor; ocbn; [fin|fin|fin|fin|fin|fin|g_one Hone|g_thr Hone Hthr t].
+    + (* CRetSeg: the caller returns having seen the body's effect *)
+      destruct Kt as [F2 S1]. destruct (Hg2 F2) as (Ar & Ad & Av & As).
+      rewrite Ec in Hs. rewrite Ad, S1, Av in Hs. simpl in Hs.
+      destruct (o_todo (o_thr s t)) eqn:Etodo; inversion Hs; subst; clear Hs;
+      (constructor; ocbn; [fin|fin|fin|fin|fin|fin|g_one Hone|g_thr Hone Hthr t]).
+    + (* CFin *)
+      inversion Hs; subst; clear Hs.
+      constructor; ocbn; [fin|fin|fin|fin|fin|fin|g_one Hone|g_thr Hone Hthr t].
+    + discriminate.
+  - (* the step is about another flag: nothing about f changes *)
+    clear Kt.
+    destruct (o_pc (o_thr s t)) eqn:Epc;
+      try (destruct (o_flag s (o_cur (o_thr s t)) =? 0));
+      try (destruct ((o_done s (o_cur (o_thr s t)) =? 1) && Nat.eqb (o_seen (o_thr s t) (o_cur (o_thr s t))) (o_dver s (o_cur (o_thr s t)))));
+      try (destruct (o_todo (o_thr s t)) eqn:Etodo);
+      try discriminate; inversion Hs; subst; clear Hs;
+      (constructor; ocbn; [spl; fin|spl; fin|spl; fin|spl; fin|spl; fin|spl; fin|g_one Hone|g_thr Hone Hthr t]).
 Qed.
 
-Theorem once_invariants P n calls sched : once_mo_ok P = true ->
-  OInv (exec osys (ostep P) (oinit n calls) sched).
+Theorem once_invariants P f n scripts sched : once_mo_ok P = true ->
+  OInv f (exec osys (ostep P) (oinit n scripts) sched).
 Proof. intros H. apply inv_exec; [|apply oinit_inv]. intros; eapply ostep_inv; eauto. Qed.
 
-(* the function body starts at most once, whatever the schedule and number of racers *)
-Corollary once_at_most_once P n calls sched : once_mo_ok P = true ->
-  (o_runs (exec osys (ostep P) (oinit n calls) sched) <= 1)%nat.
-Proof. intros H. apply (oi_runs _ (once_invariants P n calls sched H)). Qed.
+(* for every flag, the function body starts at most once, whatever the schedule, the number of racers, the
+   number of flags in flight and the calls each thread makes *)
+Corollary once_at_most_once P f n scripts sched : once_mo_ok P = true ->
+  (o_runs (exec osys (ostep P) (oinit n scripts) sched) f <= 1)%nat.
+Proof. intros H. apply (oi_runs _ _ (once_invariants P f n scripts sched H)). Qed.
 
-(* a caller that has returned (or is returning) finds the run completed and its write visible *)
-Corollary once_no_early_return P n calls sched t : once_mo_ok P = true ->
-  let s := exec osys (ostep P) (oinit n calls) sched in
-  returned (o_pc (o_thr s t)) = true \/ (0 < o_rets (o_thr s t))%nat ->
-  o_runs s = 1%nat /\ o_done s = 1 /\ o_seen (o_thr s t) = o_dver s /\ o_early s = 0%nat.
+(* a caller that is returning from a call on flag f, or has completed one earlier (and may be busy with any
+   other flag now), finds f's run completed and its write visible *)
+Corollary once_no_early_return P f n scripts sched t : once_mo_ok P = true ->
+  let s := exec osys (ostep P) (oinit n scripts) sched in
+  (o_cur (o_thr s t) = f /\ returned (o_pc (o_thr s t)) = true) \/ (0 < o_rets (o_thr s t) f)%nat ->
+  o_runs s f = 1%nat /\ o_done s f = 1 /\ o_seen (o_thr s t) f = o_dver s f /\ o_early s f = 0%nat.
 Proof.
-  intros H s Hr. pose proof (once_invariants P n calls sched H) as I. fold s in I.
-  pose proof (oi_thr _ I t) as K. unfold thr_ok in K. destruct K as [_ [Kr K]].
-  assert (F : o_flag s = 2 /\ o_seen (o_thr s t) = 1%nat).
-  { destruct Hr as [Hr|Hr]; [|exact (Kr Hr)].
+  intros H s Hr. pose proof (once_invariants P f n scripts sched H) as I. fold s in I.
+  pose proof (oi_thr _ _ I t) as K. unfold thr_ok in K. destruct K as (_ & Kr & K).
+  assert (F : o_flag s f = 2 /\ o_seen (o_thr s t) f = 1%nat).
+  { destruct Hr as [[Hc Hr]|Hr]; [|exact (Kr Hr)]. specialize (K Hc).
     destruct (o_pc (o_thr s t)); simpl in Hr; try discriminate; exact K. }
-  destruct F as [F2 S1]. destruct (oi_g2 _ I F2) as (A & B & C & D).
-  repeat split; auto; try lia; apply (oi_early _ I).
+  destruct F as [F2 S1]. destruct (oi_g2 _ _ I F2) as (A & B & C & D).
+  repeat split; auto; try lia; apply (oi_early _ _ I).
 Qed.
 
+Definition once_example_params : params :=
+  {| mo_spin_tas := Acq; mo_spin_clear := Rel; mo_sync_cas := Acq; mo_sync_store := Rel;
+     mo_once_cas := Rlx; mo_once_store := Rel; mo_once_load := Acq; mo_ref_cas := Rlx |}.
+
 Example once_nonvacuous :
-  let P := {| mo_spin_tas := Acq; mo_spin_clear := Rel; mo_sync_cas := Acq; mo_sync_store := Rel;
-              mo_once_cas := Rlx; mo_once_store := Rel; mo_once_load := Acq; mo_ref_cas := Rlx |} in
-  let s := exec osys (ostep P) (oinit 2 1)
+  let s := exec osys (ostep once_example_params) (oinit1 2 1)
     [(0,0);(0,0);(1,0);(1,0);(0,0);(0,0);(0,0);(0,0);(1,0);(1,0);(1,0)]%nat in
-  returned (o_pc (o_thr s 1%nat)) = true /\ returned (o_pc (o_thr s 0%nat)) = true /\ o_runs s = 1%nat.
+  returned (o_pc (o_thr s 1%nat)) = true /\ returned (o_pc (o_thr s 0%nat)) = true /\ o_runs s 0%nat = 1%nat.
 Proof. vm_compute. repeat split; reflexivity. Qed.
 
 (* with the READY store relaxed the hand-over is unsound in the view model: a loser can
@@ -156,17 +204,27 @@ Proof. vm_compute. repeat split; reflexivity. Qed.
 Example once_mo_necessary :
   let P := {| mo_spin_tas := Acq; mo_spin_clear := Rel; mo_sync_cas := Acq; mo_sync_store := Rel;
               mo_once_cas := Rlx; mo_once_store := Rlx; mo_once_load := Acq; mo_ref_cas := Rlx |} in
-  o_early (exec osys (ostep P) (oinit 2 1)
-    [(0,0);(0,0);(1,0);(1,0);(0,0);(0,0);(0,0);(0,0);(1,0);(1,0);(1,0)]%nat) = 1%nat.
+  o_early (exec osys (ostep P) (oinit1 2 1)
+    [(0,0);(0,0);(1,0);(1,0);(0,0);(0,0);(0,0);(0,0);(1,0);(1,0);(1,0)]%nat) 0%nat = 1%nat.
 Proof. vm_compute. reflexivity. Qed.
 
 (* a thread that calls again after READY: the second call fails the compare-exchange, loads READY and returns;
    the body still ran once and both returns saw its effect *)
 Example once_second_call_nonvacuous :
-  let P := {| mo_spin_tas := Acq; mo_spin_clear := Rel; mo_sync_cas := Acq; mo_sync_store := Rel;
-              mo_once_cas := Rlx; mo_once_store := Rel; mo_once_load := Acq; mo_ref_cas := Rlx |} in
-  let s := exec osys (ostep P) (oinit 2 2)
+  let s := exec osys (ostep once_example_params) (oinit1 2 2)
     [(0,0);(0,0);(0,0);(0,0);(0,0);(0,0);(0,0);(0,0);(0,0);(0,0);(0,0);(1,0);(1,0);(1,0);(1,0);(1,0)]%nat in
-  o_rets (o_thr s 0%nat) = 2%nat /\ o_pc (o_thr s 0%nat) = CFin /\ o_rets (o_thr s 1%nat) = 1%nat /\
-  o_pc (o_thr s 1%nat) = CCas /\ o_runs s = 1%nat /\ o_early s = 0%nat.
+  o_rets (o_thr s 0%nat) 0%nat = 2%nat /\ o_pc (o_thr s 0%nat) = CFin /\ o_rets (o_thr s 1%nat) 0%nat = 1%nat /\
+  o_pc (o_thr s 1%nat) = CCas /\ o_runs s 0%nat = 1%nat /\ o_early s 0%nat = 0%nat.
+Proof. vm_compute. repeat split; reflexivity. Qed.
+
+(* two flags in flight: thread 0 is inside the (slow) body of flag 0, thread 1 has found flag 0 in WAIT and
+   spins on it; thread 2 meanwhile runs flag 1 to completion and returns.  Thread 1 is still waiting: the
+   completion of another flag does not release it *)
+Example once_two_flags_nonvacuous :
+  let scripts := fun t : nat => match t with 0 => [0] | 1 => [0; 1] | _ => [1] end%nat in
+  let s := exec osys (ostep once_example_params) (oinit 3 scripts)
+    [(0,0);(0,0);(0,0);(0,0); (1,0);(1,0);(1,0);(1,0); (2,0);(2,0);(2,0);(2,0);(2,0);(2,0);(2,0); (1,0);(1,0)]%nat in
+  o_pc (o_thr s 0%nat) = CFunc2 /\ o_flag s 0%nat = 1 /\
+  o_flag s 1%nat = 2 /\ o_rets (o_thr s 2%nat) 1%nat = 1%nat /\ o_runs s 1%nat = 1%nat /\
+  returned (o_pc (o_thr s 1%nat)) = false /\ o_cur (o_thr s 1%nat) = 0%nat.
 Proof. vm_compute. repeat split; reflexivity. Qed.
